@@ -208,3 +208,18 @@ Proof.
   - destruct (negb (n_else (tnode e i))); [now apply st_set_state_same|].
     destruct (Nat.ltb 1 _); [now apply st_set_state_same | apply st_set_silent].
 Qed.
+
+(* ---------- C03: a workflow / branch is not completed over an open child ---------- *)
+Definition child_done e (j : nat) : bool := is_completed (st e j) || t_evproc (tk e j).
+Theorem review_waits_for_children f cv from e i :
+  t_evproc (tk e from) = false ->
+  let e' := update_data e i (outputs e from) in
+  (kind e' i = KWorkflow \/ kind e' i = KBranch) -> st e' i = SRunning ->
+  forallb (child_done e') (children e' i) = false ->
+  review (S f) cv from e i = e'.
+Proof.
+  intros Hev e' Hk Hs Hd. cbn [review]. rewrite Hev. fold e'.
+  assert (Hr : is (st e' i) SRunning = true) by (rewrite Hs; reflexivity).
+  unfold child_done in Hd.
+  destruct Hk as [Hk | Hk]; rewrite Hk, Hr, Hd; cbn [fst snd]; rewrite Hs; reflexivity.
+Qed.
